@@ -7,6 +7,8 @@
  *      [stunsrv=<ip:port>] [icetcp=<0|1>] [addrs=<ip,ip,..>] [maxchecks=<n>]
  *  stream <name> <ncomp>                      -> ok stream <id>
  *  attach <name> <sid>                        attach recv callbacks on every component
+ *  attach2 <name> <sid>                       the same on a SECOND main context (the application moves its callbacks)
+ *  injectsel <name> <sid> <cid> <hex>         datagram from the selected pair's remote address to its local address
  *  gather <name> <sid>
  *  creds <from> <sid> <to> <sid>              deliver local credentials of from/sid to to/sid
  *  cands <from> <sid> <cid> <to> <sid> [idx]  deliver all (or the idx-th) local candidates
@@ -369,6 +371,7 @@ typedef struct {
 } Ag;
 static Ag ags[MAXAG]; static int n_ags = 0;
 static GMainContext *ctx;
+static GMainContext *ctx2;   /* a second context an application may move its receive callbacks to (`attach2`) */
 static unsigned long n_state_events = 0;
 
 static Ag *find_ag (const char *n)
@@ -533,6 +536,12 @@ static int iterate_ready (void)
   /* every dispatching iteration costs a little (virtual) time, as it does on a real clock: without this
    * a timer re-armed with a sub-millisecond remainder (interval 0) would fire for ever at a frozen instant */
   while (g_main_context_iteration (ctx, FALSE)) { n++; verif_now_us += tick_cost_us; if (n > (tick_cost_us ? 20000 : 64)) { if (tick_cost_us) printf ("ev spin-detected\n"); if (getenv ("SIM_DEBUG")) { int k; for (k = 0; k < 3; k++) glib_timeout (); } break; } }
+  if (ctx2) {
+    /* only socket sources live there (the agent's timers stay on its own context): a source that stays ready without
+     * consuming its datagram would keep this loop going for ever */
+    int m = 0;
+    while (g_main_context_iteration (ctx2, FALSE)) { m++; n++; verif_now_us += tick_cost_us; if (m > 20000) { printf ("ev spin-detected\n"); break; } }
+  }
   return n;
 }
 
@@ -889,6 +898,15 @@ int main (void)
       for (; c >= 1; c--) nice_agent_attach_recv (g->agent, sid, c, ctx, cb_recv, NULL);
       puts ("ok");
     }
+    else if (!strcmp (w[0], "attach2") && n == 3 && (g = find_ag (w[1]))) {
+      /* the application moves the receive callbacks of a stream to another main context */
+      guint sid = atoi (w[2]), c; NiceStream *s;
+      if (!ctx2) ctx2 = g_main_context_new ();
+      agent_lock (g->agent); s = agent_find_stream (g->agent, sid); c = s ? s->n_components : 0; agent_unlock (g->agent);
+      for (; c >= 1; c--) nice_agent_attach_recv (g->agent, sid, c, ctx2, cb_recv, NULL);
+      total_dispatches += iterate_ready ();
+      puts ("ok");
+    }
     else if (!strcmp (w[0], "gather") && (n == 3 || n == 4) && (g = find_ag (w[1]))) {
       /* `gather A 1 noiter`: return to the application without running the main loop (asynchronous work such as the
        * resolution of the STUN server name is still pending when the next call is made) */
@@ -1130,6 +1148,20 @@ int main (void)
     else if (!strcmp (w[0], "getsel") && n == 4 && (g = find_ag (w[1])) && g->alive) {
       NiceCandidate *l = NULL, *r = NULL;
       printf ("ok ret %d\n", nice_agent_get_selected_pair (g->agent, atoi (w[2]), atoi (w[3]), &l, &r));
+    }
+    else if (!strcmp (w[0], "injectsel") && n == 5 && (g = find_ag (w[1])) && g->alive) {
+      /* a datagram that claims to come from the remote address of the selected pair, sent to its local address
+       * (what the peer — or anybody who can spoof its address — may send); IPv4 UDP pairs only */
+      NiceCandidate *l = NULL, *r = NULL; uint8_t *b; long len = parse_hex (w[4], &b); int done = 0;
+      if (len >= 0 && nice_agent_get_selected_pair (g->agent, atoi (w[2]), atoi (w[3]), &l, &r) && l && r &&
+          l->transport == NICE_CANDIDATE_TRANSPORT_UDP && nice_address_ip_version (&l->base_addr) == 4 && nice_address_ip_version (&r->addr) == 4) {
+        struct sockaddr_in f, t; memset (&f, 0, sizeof f); memset (&t, 0, sizeof t);
+        nice_address_copy_to_sockaddr (&r->addr, (struct sockaddr *) &f);
+        nice_address_copy_to_sockaddr (&l->base_addr, (struct sockaddr *) &t);
+        enqueue (&f, &t, b, len, verif_now_us + 1000); done = 1;
+      }
+      free (b);
+      printf ("ok ret %d\n", done);
     }
     else if (!strcmp (w[0], "tcpconn") && n == 3) {
       /* a foreign party opens its own (real, loopback) TCP connection to <ip:port>, e.g. an agent's tcp-passive candidate */
